@@ -1,7 +1,7 @@
 (* C07 — nothing is honoured after it has expired.  Statements only (credential kinds of the core model:
    authorization codes, opaque access tokens, refresh tokens; the other kinds are added with their flows). *)
 From FositeModel Require Import Base.Str Model.Scope Model.Core Model.Flows Cases.CasesHist Cases.Monitors Proofs.StepProps
-     Proofs.NowStep Proofs.LogStep Proofs.MonitorC07 Proofs.MonitorC07b.
+     Proofs.NowStep Proofs.ClientsStep Proofs.LogStep Proofs.MonitorC07 Proofs.MonitorC07b Proofs.MonitorC07c Proofs.CorrMonitor.
 
 Theorem C07_code_not_redeemed_after_expiry :
   forall cfg s auth code redirect v vh,
@@ -168,3 +168,24 @@ Theorem C07_monitor_expiry_and_advertised_clauses_hold_of_every_model_trace : fo
   r <> Some "advertised_expires_in_differs_from_the_honoured_expiry"%string.
 Proof. exact monitor_expiry_and_advertised_clauses_sound. Qed.
 Print Assumptions C07_monitor_expiry_and_advertised_clauses_hold_of_every_model_trace.
+
+(* only OSetClient changes the registrations *)
+Theorem C07_only_set_client_changes_the_registrations : forall cfg s o,
+  clients (fst (step cfg s o)) = match o with OSetClient id c => upd (clients s) id (Some c) | _ => clients s end.
+Proof. exact clients_step. Qed.
+Print Assumptions C07_only_set_client_changes_the_registrations.
+
+(* the whole C07 history monitor - expiry clause, advertised lifetime, and "the lifetime of every minted access and
+   refresh token is the client's override for exactly this grant and token type, else the server default" - accepts the
+   model's own trace of every history, for every configuration and registration list *)
+Theorem C07_monitor_accepts_every_model_trace : forall cfg cls h jwt,
+  clock_from jwt cfg cls 0%Z 0 (trace cfg (state0 (clients_of cls)) h) = None.
+Proof. exact monitor_C07_accepts_every_model_trace. Qed.
+Print Assumptions C07_monitor_accepts_every_model_trace.
+
+(* and a case that the correspondence check accepts (same observations, same probe vectors at every step) is a case on
+   which the monitor is silent: the implementation's trace is then the model's *)
+Theorem C07_correspondence_implies_monitor_silence : forall cfg cls steps,
+  hist_corr (HCase cfg cls steps) = None -> monitor_C07 (HCase cfg cls steps) = None.
+Proof. exact correspondence_implies_monitor_C07. Qed.
+Print Assumptions C07_correspondence_implies_monitor_silence.
